@@ -75,10 +75,12 @@ Definition oid_sm2_curve : list N := oid_or_nil (oidFromNamedCurve_model "sm2.P2
 (* elliptic.Marshal: 04 || X || Y, 32 bytes each *)
 Definition point_bytes (x y : Z) : list N := 4 :: (i2osp 32 x ++ i2osp 32 y)%list.
 
-Definition build_spki_sm2 (x y : Z) : list N :=
-  tlv ID_SEQUENCE (write_all
-    [(ID_SEQUENCE, write_all [(ID_OID, oid_bytes oid_sm2_key_algorithm); (ID_OID, oid_bytes oid_sm2_curve)]);
-     (ID_BITSTRING, 0 :: point_bytes x y)]).
+Definition spki_content_with (algorithm : list N) (x y : Z) : list N :=
+  write_all [(ID_SEQUENCE, algorithm); (ID_BITSTRING, 0 :: point_bytes x y)].
+Definition spki_algorithm_sm2 : list N :=
+  write_all [(ID_OID, oid_bytes oid_sm2_key_algorithm); (ID_OID, oid_bytes oid_sm2_curve)].
+Definition spki_content_sm2 (x y : Z) : list N := spki_content_with spki_algorithm_sm2 x y.
+Definition build_spki_sm2 (x y : Z) : list N := tlv ID_SEQUENCE (spki_content_sm2 x y).
 
 (* parseCertificate: getPublicKeyAlgorithmFromOID, then parsePublicKey's ECDSA arm with elliptic.Unmarshal *)
 Definition parse_spki_sm2 (content : list N) : outcome (Z * Z) :=
@@ -219,35 +221,45 @@ Definition ext_oid_of (name : string) : list N :=
 
 (* buildExtensions (without OCSP / issuing URLs / CRL distribution points / ExtraExtensions): the order,
    the conditions and the critical flags *)
-Definition buildExtensions_model (f : cert_fields) : outcome (list crl_ext) :=
+Definition ext_oid_by_arc (a : N) : list N :=
+  ext_oid_of (match a with
+              | 15 => "oidExtensionKeyUsage" | 37 => "oidExtensionExtendedKeyUsage" | 19 => "oidExtensionBasicConstraints"
+              | 14 => "oidExtensionSubjectKeyId" | 35 => "oidExtensionAuthorityKeyId" | 17 => "oidExtensionSubjectAltName"
+              | 32 => "oidExtensionCertificatePolicies" | 30 => "oidExtensionNameConstraints" | _ => ""
+              end).
+
+(* [o]: the OID each extension is written under, by the arm of parseCertificate that reads it *)
+Definition buildExtensions_with (o : N -> list N) (f : cert_fields) : outcome (list crl_ext) :=
   let ku := if f_keyusage f =? 0 then []
-            else [mkExt (ext_oid_of "oidExtensionKeyUsage") true (build_keyusage_value (f_keyusage f))] in
+            else [mkExt (o 15) true (build_keyusage_value (f_keyusage f))] in
   do eku <- (match f_ekus f, f_unknown_ekus f with
              | [], [] => Ok []
              | _, _ => do v <- build_eku (f_ekus f) (f_unknown_ekus f);
-                       Ok [mkExt (ext_oid_of "oidExtensionExtendedKeyUsage") false v]
+                       Ok [mkExt (o 37) false v]
              end);
   let bc := if f_bcvalid f
-            then [mkExt (ext_oid_of "oidExtensionBasicConstraints") true
+            then [mkExt (o 19) true
                         (build_bc_value (f_isca f) (f_maxpathlen f) (f_maxpathlenzero f))]
             else [] in
-  let ski := match f_ski f with [] => [] | k => [mkExt (ext_oid_of "oidExtensionSubjectKeyId") false (build_ski k)] end in
-  let aki := match f_aki f with [] => [] | k => [mkExt (ext_oid_of "oidExtensionAuthorityKeyId") false (build_aki k)] end in
+  let ski := match f_ski f with [] => [] | k => [mkExt (o 14) false (build_ski k)] end in
+  let aki := match f_aki f with [] => [] | k => [mkExt (o 35) false (build_aki k)] end in
   let san := match f_dns f, f_emails f, f_ips f with
              | [], [], [] => []
-             | _, _, _ => [mkExt (ext_oid_of "oidExtensionSubjectAltName") false
+             | _, _, _ => [mkExt (o 17) false
                                  (marshalSANs_model (f_dns f) (f_emails f) (f_ips f))]
              end in
   do pol <- (match f_policies f with
              | [] => Ok []
-             | p => do v <- build_policies p; Ok [mkExt (ext_oid_of "oidExtensionCertificatePolicies") false v]
+             | p => do v <- build_policies p; Ok [mkExt (o 32) false v]
              end);
   do nc <- (match f_permitted f with
             | [] => Ok []
             | d => do v <- build_name_constraints d;
-                   Ok [mkExt (ext_oid_of "oidExtensionNameConstraints") (f_permitted_critical f) v]
+                   Ok [mkExt (o 30) (f_permitted_critical f) v]
             end);
   Ok (ku ++ eku ++ bc ++ ski ++ aki ++ san ++ pol ++ nc)%list.
+
+Definition buildExtensions_model : cert_fields -> outcome (list crl_ext) := buildExtensions_with ext_oid_by_arc.
 
 (* the loop "for _, e := range in.TBSCertificate.Extensions" of parseCertificate for the arms modelled here:
    each arm overwrites its fields; an unknown critical extension makes the certificate unhandled (not an error) *)
